@@ -363,9 +363,127 @@ def extra(rep, tier, rng):
     rep.extra["crash_survivors_reloaded"] = n_loaded
     rep.extra["crash_samples"] = samples
     rep.cov["evaluations"] += n_points
+    # the state file a multiple-walker metadynamics bias publishes for its peers (temporary file + rename, no backup)
+    publish_crash(rep, exe, work, r2, tier)
     # the recorded finding: two crashes in a row
     double_crash(rep, exe, work, r2)
     shutil.rmtree(d, ignore_errors=True)
+
+
+def publish_crash(rep, exe, work, rng, tier):
+    """process death at every file operation while the walker's published state file is replaced twice; after each death the
+    published file must hold one of the complete generations"""
+    pw = os.path.join(work, "mw")
+    shutil.rmtree(pw, ignore_errors=True); os.makedirs(pw)
+    conf = inj_cv("x0", 0, -3.0, 3.0, 0.5) + (
+        "metadynamics {\n name b\n colvars x0\n hillWeight 0.2\n hillWidth 2.0\n newHillFrequency 2\n useGrids off\n multipleReplicas on\n"
+        " replicaID w0\n replicasRegistry registry.txt\n replicaUpdateFrequency 1000\n}\n")
+    pw = os.path.realpath(pw)
+    prefix = os.path.join(pw, "out")           # the library names the walker's files <cwd>/<output prefix>...: run in `pw` with the prefix "out"
+    def steps(n):
+        L = []
+        for _ in range(n):
+            L += [pos(0, 0.0, 0.0, rng.uniform(-2, 2)), "m.step"]
+        return L
+    ops = ["m.new 1", cfg(conf), "m.opt prefix out"] + steps(7) + ["m.endrun"] + steps(6) + ["m.endrun"]
+    opf = os.path.join(pw, "ops.txt")
+    open(opf, "w").write("\n".join(ops) + "\n")
+    pub = prefix + ".colvars.b.w0.state"
+    def clean():
+        for fn in os.listdir(pw):
+            if fn != "ops.txt":
+                os.unlink(os.path.join(pw, fn))
+    clean()
+    log = os.path.join(pw, "log")
+    env = dict(os.environ, CV_FAULT_PREFIX=prefix, CV_FAULT_LOG=log, OMP_NUM_THREADS="1")
+    q = subprocess.run([exe, opf], cwd=pw, env=env, stdout=subprocess.DEVNULL, stderr=subprocess.DEVNULL)
+    if q.returncode != 0 or not os.path.exists(pub):
+        rep.violation("a multiple-walker metadynamics run did not publish its state file %s (exit %s)" % (pub, q.returncode), "\n".join(ops) + "\n",
+                      "publish_setup", found_input=True)
+        return
+    final = open(pub, "rb").read()
+    oplog = [l.split() for l in open(log)]
+    os.unlink(log)
+    # operations on the published file and its temporary
+    mine = [(int(l[0]), l[1], l[2], l[3], int(l[4])) for l in oplog if l[2].startswith(pub) or l[3].startswith(pub)]
+    kinds = [m[1] for m in mine]
+    # protocol correspondence: each replacement = open(tmp) write+ close(tmp) rename(tmp, file)
+    groups = []; cur = []
+    for m in mine:
+        cur.append(m)
+        if m[1] == "rename":
+            groups.append(cur); cur = []
+    shape_ok = not cur and len(groups) >= 2 and all(
+        g[0][1] == "open" and g[0][2].endswith(".tmp") and g[-2][1] == "close" and g[-1][1] == "rename" and g[-1][3] == pub
+        and len(g) >= 4 and all(x[1] == "write" for x in g[1:-2]) for g in groups)
+    if not shape_ok:
+        rep.violation("the file operations that replace the published walker state no longer follow the modelled protocol "
+                      "(open tmp, write*, close tmp, rename tmp -> file): %s" % kinds,
+                      "#! correspondence CvModel/FileSys.lean (publishOps) <-> colvarbias_meta::write_replica_state_file broken\n#! observed: %s\n" % kinds
+                      + "\n".join(ops) + "\n", "publish_protocol", found_input=False)
+    # complete generations: what the file holds whenever the next replacement starts (= death just before each open of the temporary), and at the end
+    gens = [final]
+    opens = [m[0] for m in mine if m[1] == "open" and m[2].endswith(".tmp")]
+    for k in opens[1:]:
+        clean()
+        subprocess.run([exe, opf], cwd=pw, env=dict(os.environ, CV_FAULT_PREFIX=prefix, CV_FAULT_AT=str(k), OMP_NUM_THREADS="1"),
+                       stdout=subprocess.DEVNULL, stderr=subprocess.DEVNULL)
+        if os.path.exists(pub):
+            gens.append(open(pub, "rb").read())
+    first_pub = next((m[0] for m in mine if m[1] == "rename"), None)
+    npts = 0; model_lines = []
+    last = int(oplog[-1][0])
+    for k in range((first_pub or 0) + 1, last + 2):
+        entry = next((l for l in oplog if int(l[0]) == k), None)
+        fracs = [0.0]
+        if entry is not None and entry[1] == "write":
+            fracs = [0.0, 0.5] if tier == "quick" else [0.0, 0.01, 0.5, 0.99]
+        for fr in fracs:
+            clean()
+            subprocess.run([exe, opf], cwd=pw, env=dict(os.environ, CV_FAULT_PREFIX=prefix, CV_FAULT_AT=str(k), CV_FAULT_FRAC=str(fr), OMP_NUM_THREADS="1"),
+                           stdout=subprocess.DEVNULL, stderr=subprocess.DEVNULL)
+            npts += 1
+            have = open(pub, "rb").read() if os.path.exists(pub) else None
+            if have is None or have not in gens:
+                what = "absent" if have is None else ("%d bytes, a cut copy of a complete state" % len(have) if any(g.startswith(have) for g in gens) else "%d bytes" % len(have))
+                rep.violation("after process death at file operation %d (%s %s, fraction %.2f) the published walker state %s holds no complete state (%s; complete "
+                              "generations have %s bytes) and there is no backup of it" % (k, entry[1] if entry else "end", os.path.basename(entry[2]) if entry else "",
+                                                                                           fr, os.path.basename(pub), what, sorted(set(len(g) for g in gens))),
+                              "#! CV_FAULT_PREFIX=%s CV_FAULT_AT=%d CV_FAULT_FRAC=%s\n" % (prefix, k, fr) + "\n".join(ops) + "\n", "publish_crash_k%d" % k, found_input=True)
+                rep.extra["publish_crash_points"] = npts
+                return
+    rep.extra["publish_crash_points"] = npts
+    rep.extra["publish_generations"] = [len(g) for g in gens]
+    rep.cov["evaluations"] += npts
+    # the model of the protocol against the second replacement: death after k complete operations of it and j bytes of a write
+    if shape_ok and len(gens) >= 3:
+        g = groups[1]; k0 = g[0][0]; ws = [x[4] for x in g[1:-2]]
+        s_old, s_new = gens[1], gens[2]          # the generations before and after the second replacement
+        mf = os.path.join(work, "pmodel_ops.txt"); rows = []
+        with open(mf, "w") as fh:
+            for i, m in enumerate(g + [None]):
+                kk = i + 1                    # publishOps starts with removeTmp (not counted by the fault layer)
+                for j in ([0, ws[i - 1] // 2] if (m is not None and m[1] == "write") else [0]):
+                    clean()
+                    kabs = (m[0] if m is not None else g[-1][0] + 1)
+                    fr = (j / float(ws[i - 1])) if j else 0.0
+                    subprocess.run([exe, opf], cwd=pw, env=dict(os.environ, CV_FAULT_PREFIX=prefix, CV_FAULT_AT=str(kabs), CV_FAULT_FRAC=repr(fr), OMP_NUM_THREADS="1"),
+                                   stdout=subprocess.DEVNULL, stderr=subprocess.DEVNULL)
+                    have = open(pub, "rb").read() if os.path.exists(pub) else None
+                    jj = int(fr * ws[i - 1]) if j else 0
+                    fh.write("fs.pcrash %d %d %d %s\n" % (len(s_old), kk, jj, " ".join(map(str, ws))))
+                    rows.append((kk, jj, have))
+        mrc, mout, merr = cvlib.run_model(mf)
+        pm, _ = cvlib.parse_out(mout)
+        new_len = sum(ws)
+        for i, (kk, jj, have) in enumerate(rows, 1):
+            mv = pm.get((i, "pub", 1))
+            cls = "absent" if have is None else ("new" if have == s_new else ("old" if have == s_old else "other"))
+            if mv is None or mv[0] != "s" + cls:
+                rep.violation("death after %d operations (+%d bytes) of the second replacement of the published state: disk holds '%s', the protocol model says %s" % (kk, jj, cls, mv),
+                              "#! correspondence CvModel/FileSys.lean (pcrashAt / publishOps) <-> real file operations broken (fs.pcrash k=%d j=%d)\n" % (kk, jj)
+                              + "\n".join(ops) + "\n", "publish_model_k%d" % kk, found_input=False)
+                break
 
 
 def double_crash(rep, exe, work, rng):
